@@ -647,9 +647,8 @@ class Lane:
                     continue
                 total = pre.count(job(bx, dx))
                 self.c["G_cases"] = self.c.get("G_cases", 0) + 1
-                points = list(range(1, total + 1))
-                if len(points) > 40:
-                    points = sorted(rng.sample(points, 40))
+                points = pre.points_by_location(rng, 40)
+                self.c["G_locations_seen"] = len(pre.loc_uses)
                 for k in points:
                     a, b, ran = pre.run(job(bx, dx), job(by, dy), k)
                     if not ran:
